@@ -1,3 +1,90 @@
+/-
+C05 — two DataFrames compare as correct exactly when the checked structure and values agree.
+Model: Model/CheckPandas.lean (structure checks, verdict); value comparison enters as the parameter
+`valuesEqual` (DataFrame.round/equals are not modelled - the oracle recomputes them cell by cell).
+Proofs: Lemmas/CheckPandas.lean.
+-/
 import TddaVerif.Model.CheckPandas
+import TddaVerif.Props.C05Spec
+import TddaVerif.Lemmas.CheckPandas
+
 namespace TddaVerif.Props.C05
+open TddaVerif.Py TddaVerif.CheckPandas
+
+/-- types_match is the documented relation of the three levels -/
+theorem typesMatch_iff (a b : Line) (level : Level) : typesMatch a b level = true ↔ TypesAgree a b level :=
+  Lemmas.typesMatch_iff a b level
+theorem typesMatch_refl (a : Line) (level : Level) : typesMatch a a level = true := Lemmas.typesMatch_refl a level
+theorem typesMatch_symm (a b : Line) (level : Level) : typesMatch a b level = typesMatch b a level :=
+  Lemmas.typesMatch_symm a b level
+/-- each level accepts everything the stricter one accepts -/
+theorem typesMatch_strict_to_medium (a b : Line) (h : typesMatch a b .strict = true) : typesMatch a b .medium = true :=
+  Lemmas.typesMatch_strict_to_medium a b h
+theorem typesMatch_medium_to_permissive (a b : Line) (h : typesMatch a b .medium = true) :
+    typesMatch a b .permissive = true := Lemmas.typesMatch_medium_to_permissive a b h
+
+/-- **the property**: the comparison passes exactly when the stated rule holds -/
+theorem check_iff_agree (act ref : List Col) (nact nref : Nat) (cd ct ce : Flag) (co : Option Flag)
+    (level : Level) (ve : List Line → Bool) :
+    checkDataframe act ref nact nref cd ct ce co level ve = true ↔ Agree act ref nact nref cd ct ce co level ve :=
+  Lemmas.check_iff_agree act ref nact nref cd ct ce co level ve
+
+theorem copy_passes (f : List Col) (n : Nat) (cd ct ce : Flag) (co : Option Flag) (level : Level)
+    (ve : List Line → Bool) (hve : ∀ cols, ve cols = true)
+    (hct : ∀ c ∈ resolve ct (f.map (·.name)), c ∈ f.map (·.name))
+    (hcd : ∀ c ∈ resolve cd (f.map (·.name)), c ∈ f.map (·.name))
+    (hce : ∀ c ∈ resolve ce (f.map (·.name)), c ∈ f.map (·.name)) :
+    checkDataframe f f n n cd ct ce co level ve = true :=
+  Lemmas.copy_passes f n cd ct ce co level ve hve hct hcd hce
+
+theorem rowcount_fails (act ref : List Col) (nact nref : Nat) (cd ct ce : Flag) (co : Option Flag)
+    (level : Level) (ve : List Line → Bool) (h : nact ≠ nref) :
+    checkDataframe act ref nact nref cd ct ce co level ve = false :=
+  Lemmas.rowcount_fails act ref nact nref cd ct ce co level ve h
+
+theorem missing_column_fails (act ref : List Col) (nact nref : Nat) (cd ct ce : Flag) (co : Option Flag)
+    (level : Level) (ve : List Line → Bool) (c : Line)
+    (hc : c ∈ resolve ct (ref.map (·.name))) (hm : c ∉ act.map (·.name)) :
+    checkDataframe act ref nact nref cd ct ce co level ve = false :=
+  Lemmas.missing_column_fails act ref nact nref cd ct ce co level ve c hc hm
+
+theorem extra_column_fails (act ref : List Col) (nact nref : Nat) (cd ct ce : Flag) (co : Option Flag)
+    (level : Level) (ve : List Line → Bool) (c : Line)
+    (hc : c ∈ resolve ce (act.map (·.name))) (hm : c ∉ ref.map (·.name)) :
+    checkDataframe act ref nact nref cd ct ce co level ve = false :=
+  Lemmas.extra_column_fails act ref nact nref cd ct ce co level ve c hc hm
+
+theorem wrong_type_fails (act ref : List Col) (nact nref : Nat) (cd ct ce : Flag) (co : Option Flag)
+    (level : Level) (ve : List Line → Bool) (c ta tr : Line)
+    (hc : c ∈ resolve ct (ref.map (·.name)))
+    (ha : dtypeC act c = some ta) (hr : dtypeC ref c = some tr) (hne : ¬ TypesAgree ta tr level) :
+    checkDataframe act ref nact nref cd ct ce co level ve = false :=
+  Lemmas.wrong_type_fails act ref nact nref cd ct ce co level ve c ta tr hc ha hr hne
+
+theorem wrong_order_fails (act ref : List Col) (nact nref : Nat) (cd ct ce : Flag) (f : Flag)
+    (level : Level) (ve : List Line → Bool)
+    (h : (act.map (·.name)).filter (fun c => (resolve f (ref.map (·.name))).contains c && (ref.map (·.name)).contains c)
+       ≠ (ref.map (·.name)).filter (fun c => (resolve f (ref.map (·.name))).contains c && (act.map (·.name)).contains c)) :
+    checkDataframe act ref nact nref cd ct ce (some f) level ve = false :=
+  Lemmas.wrong_order_fails act ref nact nref cd ct ce f level ve h
+
+theorem value_difference_fails (act ref : List Col) (nact nref : Nat) (cd ct ce : Flag) (co : Option Flag)
+    (level : Level) (ve : List Line → Bool)
+    (hne : resolve cd (ref.map (·.name)) ≠ []) (h : ve (resolve cd (ref.map (·.name))) = false) :
+    checkDataframe act ref nact nref cd ct ce co level ve = false :=
+  Lemmas.value_difference_fails act ref nact nref cd ct ce co level ve hne h
+
+/-- moving a column really is a different relative order (frames with distinct names, everything selected) -/
+theorem swap_changes_order (pre mid post : List Line) (a b : Line) (hab : a ≠ b)
+    (hnd : (pre ++ a :: mid ++ b :: post).Nodup) :
+    (pre ++ b :: mid ++ a :: post).filter (fun c => (pre ++ a :: mid ++ b :: post).contains c && (pre ++ a :: mid ++ b :: post).contains c)
+      ≠ (pre ++ a :: mid ++ b :: post).filter (fun c => (pre ++ a :: mid ++ b :: post).contains c && (pre ++ b :: mid ++ a :: post).contains c) :=
+  Lemmas.swap_changes_order pre mid post a b hab hnd
+
+/- non-vacuity: a two-column frame, medium matching, int64 vs Int32 agree, int64 vs float64 do not -/
+example : typesMatch "int64".toList "Int32".toList .medium = true := by decide
+example : typesMatch "int64".toList "float64".toList .medium = false := by decide
+example : typesMatch "int64".toList "float64".toList .permissive = true := by decide
+example : typesMatch "object".toList "datetime64[ns]".toList .medium = true := by decide
+
 end TddaVerif.Props.C05
